@@ -37,9 +37,14 @@ Fixpoint map_set (h : headmap) (k v : bytes) : headmap :=
   | (k', v') :: h' => if bytes_eqb k k' then (k, v) :: h' else (k', v') :: map_set h' k v
   end.
 
+(* ByteBuffer.ReadUint16: two bytes are taken from the buffer; when fewer than
+   two are left the value is 0 (io.ErrShortBuffer / EOF, ignored by the helper) *)
+Definition read_u16 (bs : bytes) : N :=
+  if (length bs <? 2)%nat then 0 else unbe (take_pad 2 bs).
+
 (* reads one length-prefixed string with zero-filled short reads *)
 Definition read_str16 (bs : bytes) : bytes * bytes :=
-  let n := N.to_nat (unbe (take_pad 2 bs)) in
+  let n := N.to_nat (read_u16 bs) in
   let r := skipn 2 bs in
   (take_pad n r, skipn n r).
 
